@@ -610,6 +610,7 @@ partial def exec (x : XState) (args : List String) : XState × String :=
      | some (some _) => ({ x with holds := (id, v.toNat!) :: x.holds }, "ok")
      | some none => (x, "?")
      | none => (x, "err"))
+  | ["dclose", id] => ({ x with holds := x.holds.filter (fun h => h.1 != id) }, "ok")   -- closed twice: still one release
   | ["release", id] => ({ x with holds := x.holds.filter (fun h => h.1 != id) }, "ok")
   | "reads" :: "imm" :: n :: op :: arg :: _ =>
     -- storage reads of one lookup on a freshly obtained tree of version n, nothing cached: exactly the
